@@ -688,3 +688,65 @@ Lemma nonvacuous_x :
   k_err y = EOther /\ k_ran y = false /\ k_buf_out y = "ab" /\
   k_err (exec_x nv_penv (fun _ _ => Started 0 "ab" "") nv_envm (XFail 2) (XW WBuf) "/bin/tool" []) = ENil.
 Proof. vm_compute. repeat split. Qed.
+
+(* ---------------------------------------------------------------- overlapping calls *)
+
+(* what a call started alone in environment pe hands to the OS *)
+Definition alone_argv (pe : envlist) (c : pcall) : list string :=
+  map (expand (exec_mapping pe (pc_envm c))) (pc_cmd c :: pc_args c).
+Definition alone_envp (pe : envlist) (c : pcall) : list string :=
+  dedup_env (environ pe ++ map entry_str (pc_envm c)).
+Definition obs_of_alone (pe : envlist) (c : pcall) (o : pobs) : Prop :=
+  (forall v, po_argv o = Some v -> v = alone_argv pe c) /\ (forall e, po_envp o = Some e -> e = alone_envp pe c).
+
+Lemma alone_is_exec : forall pe child c so se,
+  let x := exec_ pe child (pc_envm c) so se (pc_cmd c) (pc_args c) in
+  k_argv x = alone_argv pe c /\ k_envp x = alone_envp pe c.
+Proof.
+  intros pe child c so se. pose proof (exec_core pe child (pc_envm c) so se (pc_cmd c) (pc_args c)) as H.
+  cbv zeta in H. destruct H as (_ & H2 & H3 & _). split; assumption.
+Qed.
+
+Lemma step_call_inv : forall pe c o s, obs_of_alone pe c o ->
+  fst (step_call pe c o s) = pe /\ obs_of_alone pe c (snd (step_call pe c o s)).
+Proof.
+  intros pe c o s [Ha He]. destruct s; simpl; split; try reflexivity; split; simpl; intros v H;
+    try (inversion H; reflexivity); auto.
+Qed.
+
+(* every interleaving of the steps of two calls: the process environment is never changed, and whatever
+   each call has handed to the OS is exactly what it hands over when it runs alone *)
+Lemma par_calls_independent : forall sched a b pe oa ob,
+  obs_of_alone pe a oa -> obs_of_alone pe b ob ->
+  let '(pe', (oa', ob')) := par_calls sched a b pe oa ob in
+  pe' = pe /\ obs_of_alone pe a oa' /\ obs_of_alone pe b ob'.
+Proof.
+  induction sched as [|[w s] r IH]; intros a b pe oa ob Ha Hb; simpl.
+  - auto.
+  - destruct w.
+    + destruct (step_call_inv pe a oa s Ha) as [E1 E2].
+      destruct (step_call pe a oa s) as [pe' oa'] eqn:S. simpl in E1, E2. subst pe'. apply IH; assumption.
+    + destruct (step_call_inv pe b ob s Hb) as [E1 E2].
+      destruct (step_call pe b ob s) as [pe' ob'] eqn:S. simpl in E1, E2. subst pe'. apply IH; assumption.
+Qed.
+
+Lemma obs0_alone : forall pe c, obs_of_alone pe c pobs0.
+Proof. intros; split; intros v H; discriminate. Qed.
+
+(* the t.Setenv-style design is not independent: B, which has no map, expands $A to A's value, its child
+   inherits it, and after "start A, start B, end A, end B" the process environment has changed *)
+Definition sx_a : pcall := {| pc_envm := [("A", "from a")]; pc_cmd := "tool"; pc_args := ["$A"] |}.
+Definition sx_b : pcall := {| pc_envm := []; pc_cmd := "tool"; pc_args := ["$A"] |}.
+Definition sx_pe : envlist := [("A", "inherited")].
+Definition sx_sched : list (bool * pstep) :=
+  [(true, PExpand); (true, PStart); (false, PExpand); (false, PStart); (true, PEnd); (false, PEnd)].
+Definition pobs_s0 : pobs_s := {| ps_obs := pobs0; ps_prev := [] |}.
+
+Lemma setenv_design_not_independent :
+  let '(pe', (_, ob)) := par_calls_setenv sx_sched sx_a sx_b sx_pe pobs_s0 pobs_s0 in
+  po_argv (ps_obs ob) = Some ["tool"; "from a"] /\ alone_argv sx_pe sx_b = ["tool"; "inherited"] /\
+  po_envp (ps_obs ob) = Some ["A=from a"] /\ alone_envp sx_pe sx_b = ["A=inherited"] /\
+  (* while the code that exists gives, on the same schedule: *)
+  (let '(pe2, (_, ob2)) := par_calls sx_sched sx_a sx_b sx_pe pobs0 pobs0 in
+   pe2 = sx_pe /\ po_argv ob2 = Some ["tool"; "inherited"] /\ po_envp ob2 = Some ["A=inherited"]).
+Proof. vm_compute. repeat split. Qed.
